@@ -179,3 +179,99 @@ fn c09_udp_recv_exact_fit() {
     kani::cover!(n == 3, "exact fit");
 }
 }
+
+// ---------------------------------------------------------------------------------------------------
+// C09 "only current members for a multicast group" / C15 "a port becomes available again once its
+// socket is dropped", through the REAL `UdpSocket::join_multicast_v4` and `Drop for UdpSocket`
+// running inside `World::enter` on a real two-host World (scoped-tls model; no runtime involved):
+// a socket bound on the wildcard (or localhost) address that joined a group is a member under its
+// HOST address; once it is dropped it is no member of any group any more and its port is free, so a
+// socket bound to the same port later does not inherit the membership.
+use crate::host::HostTimer;
+use rand::RngCore;
+use std::cell::RefCell;
+
+struct CoinRng;
+impl RngCore for CoinRng {
+    fn next_u32(&mut self) -> u32 {
+        if kani::any() { 0 } else { u32::MAX }
+    }
+    fn next_u64(&mut self) -> u64 {
+        if kani::any() { 0 } else { u64::MAX }
+    }
+    fn fill_bytes(&mut self, d: &mut [u8]) {
+        for b in d {
+            *b = if kani::any() { 0 } else { 255 };
+        }
+    }
+}
+const HOST_A: IpAddr = IpAddr::V4(Ipv4Addr::new(192, 168, 0, 1));
+const HOST_B: IpAddr = IpAddr::V4(Ipv4Addr::new(192, 168, 0, 2));
+
+fn two_host_world() -> World {
+    let cfg = crate::Config {
+        duration: std::time::Duration::from_secs(10),
+        tick: std::time::Duration::from_millis(1),
+        epoch: std::time::SystemTime::UNIX_EPOCH,
+        ephemeral_ports: 49152..=49155,
+        tcp_capacity: 2,
+        udp_capacity: 2,
+        enable_tokio_io: false,
+        random_node_order: false,
+    };
+    let link = crate::config::Link {
+        latency: Some(crate::config::Latency::default()),
+        message_loss: Some(crate::config::MessageLoss::default()),
+    };
+    let mut w = World::new(link, Box::new(CoinRng), crate::ip::IpVersion::V4.iter(), std::time::Duration::from_millis(1));
+    w.register(HOST_A, "a", HostTimer::new(std::time::Duration::ZERO, std::time::Duration::ZERO), &cfg);
+    w.register(HOST_B, "b", HostTimer::new(std::time::Duration::ZERO, std::time::Duration::ZERO), &cfg);
+    w
+}
+
+fn drop_member(localhost_bind: bool, explicit_leave: bool) -> bool {
+    let mut world = two_host_world();
+    let bind_ip = if localhost_bind { IpAddr::V4(Ipv4Addr::LOCALHOST) } else { IpAddr::V4(Ipv4Addr::UNSPECIFIED) };
+    let sock = match world.hosts.get_mut(&HOST_A).unwrap().udp.bind(SocketAddr::new(bind_ip, 9000)) {
+        Ok(s) => s,
+        Err(_) => panic!("bind"),
+    };
+    world.current = Some(HOST_A);
+    let group = Ipv4Addr::new(239, 1, 2, 3);
+    let me = SocketAddr::new(HOST_A, 9000);
+    let cell = RefCell::new(world);
+    let was_member = World::enter(&cell, || {
+        let r = sock.join_multicast_v4(group, Ipv4Addr::UNSPECIFIED);
+        assert!(r.is_ok());
+        std::mem::forget(r);
+        let m = World::current(|w| w.multicast_groups.contains_destination_address(IpAddr::V4(group), me));
+        if explicit_leave {
+            let r = sock.leave_multicast_v4(group, Ipv4Addr::UNSPECIFIED);
+            assert!(r.is_ok());
+            std::mem::forget(r);
+        }
+        drop(sock);
+        m
+    });
+    assert!(was_member, "joined under the host address");
+    let world = cell.into_inner();
+    assert!(!world.multicast_groups.contains_destination_address(IpAddr::V4(group), me), "a dropped socket is no member any more");
+    assert!(world.multicast_groups.destination_addresses(SocketAddr::new(IpAddr::V4(group), 9000)).len() == 0, "nobody is left in the group");
+    assert!(!world.hosts.get(&HOST_A).unwrap().udp.is_port_assigned(9000), "its port is free again");
+    std::mem::forget(world);
+    was_member
+}
+// (not shipped: OOM at 12 GB / no verdict in 15 min - the group table is an IndexMap of IndexSets keyed by socket addresses) C09,C15 role=udp_drop desc=wildcard-bind,joined,dropped-without-leave
+crate::verif_proof! { unwind = 8;
+fn c09_dropped_socket_leaves_its_multicast_groups() {
+    let m = drop_member(false, false);
+    kani::cover!(m, "was a member, then dropped");
+}
+}
+// (not shipped: same) C09,C15 role=udp_drop desc=localhost-bind,joined,left,dropped
+crate::verif_proof! { unwind = 8;
+fn c09_dropped_socket_after_explicit_leave() {
+    let m = drop_member(true, true);
+    kani::cover!(m, "joined, left, dropped");
+}
+}
